@@ -659,6 +659,77 @@ impl WorkerState for W {
                     o.nontrivial = true;
                     o
                 }
+                Some(b"macro-use-groups") => {
+                    // the `library!` macro: nested groups in `use` declarations, in several item orders
+                    let builds: Vec<(&str, fn() -> Result<Runtime<NoCtx>, String>, &str, i32)> = vec![
+                        (
+                            "use a::{b::f, g};",
+                            || {
+                                Runtime::from_lib(roto::library! {
+                                    mod a { fn g() -> i32 { 1 } mod b { fn f() -> i32 { 20 } fn g() -> i32 { 300 } } }
+                                    use a::{b::f, g};
+                                })
+                                .map_err(|e| format!("{e}"))
+                            },
+                            "fn t() -> i32 { f() + g() }",
+                            21,
+                        ),
+                        (
+                            "use a::{g, b::f};",
+                            || {
+                                Runtime::from_lib(roto::library! {
+                                    mod a { fn g() -> i32 { 1 } mod b { fn f() -> i32 { 20 } fn g() -> i32 { 300 } } }
+                                    use a::{g, b::f};
+                                })
+                                .map_err(|e| format!("{e}"))
+                            },
+                            "fn t() -> i32 { f() + g() }",
+                            21,
+                        ),
+                        (
+                            "use a::{b::{f, h}, g, c::k};",
+                            || {
+                                Runtime::from_lib(roto::library! {
+                                    mod a {
+                                        fn g() -> i32 { 1 }
+                                        fn h() -> i32 { 5000 }
+                                        mod b { fn f() -> i32 { 20 } fn h() -> i32 { 300 } fn k() -> i32 { 70000 } }
+                                        mod c { fn k() -> i32 { 4000 } }
+                                    }
+                                    use a::{b::{f, h}, g, c::k};
+                                })
+                                .map_err(|e| format!("{e}"))
+                            },
+                            "fn t() -> i32 { f() + g() + h() + k() }",
+                            4321,
+                        ),
+                        (
+                            "use a::b::f; use a::{b::g};",
+                            || {
+                                Runtime::from_lib(roto::library! {
+                                    mod a { fn g() -> i32 { 1 } mod b { fn f() -> i32 { 20 } fn g() -> i32 { 300 } } }
+                                    use a::b::f;
+                                    use a::{b::g};
+                                })
+                                .map_err(|e| format!("{e}"))
+                            },
+                            "fn t() -> i32 { f() + g() }",
+                            320,
+                        ),
+                    ];
+                    for (text, build, script, want) in builds {
+                        let o = scenario_simple(build, script, want);
+                        if o.verdict == Verdict::Fail {
+                            let mut f = Outcome::fail(format!("{}:macro-use-groups", o.sig.split(':').next().unwrap_or("scenario")), format!("library! {{ .. {text} }} with script `{script}`: {}", o.msg));
+                            f.render = Some(text.to_string());
+                            return f;
+                        }
+                    }
+                    let mut o = Outcome::pass();
+                    o.nontrivial = true;
+                    o.hash = fnv(b"macro-use-groups");
+                    o
+                }
                 _ => Outcome::discard("unknown scenario"),
             };
         }
@@ -858,6 +929,10 @@ impl Prop for C18P {
     }
     fn shape(&self, _tier: Tier) -> CaseShape {
         CaseShape::streams(&[200])
+    }
+    fn fixed_cases(&self, _tier: Tier) -> Vec<Case> {
+        // the macro route cannot be generated at run time: fixed scenarios
+        vec![vec![b"#!scenario".to_vec(), b"macro-use-groups".to_vec()], vec![b"#!scenario".to_vec(), b"use-nested-path".to_vec()]]
     }
     fn worker(&self, excl: &[String]) -> Box<dyn WorkerState> {
         Box::new(W { excl: excl.to_vec() })
